@@ -182,3 +182,53 @@ pub fn restrict_mut_join(ids: [Index; NI]) {
     forget(ma);
     forget(env);
 }
+
+/// Lending join over `&mut restrict_mut()`: mutable lookup of ANOTHER entity
+/// (which may be the item's own index through a stale handle) follows the
+/// storage's aliveness and membership rules; a write through it lands on that
+/// entity only.
+pub fn restrict_other_mut(ids: [Index; NI], t: usize) {
+    let mut ma = MaskedStorage::<CVec>::new(Default::default());
+    let am = any_storage::<CVec>(&mut ma, ids);
+    let (ent, st) = any_entities(ids);
+    let env = Env::new(ent);
+    let mut sa: St<'_, CVec> = Storage::new(env.fetch(), &mut ma);
+    let (h, live) = any_handle(ids, &st, t);
+    let y = nd::u8();
+    let mut now = am;
+    let mut visited = 0usize;
+    {
+        let mut r = sa.restrict_mut();
+        let mut it = (&mut r).lend_join();
+        while let Some(mut e) = it.next() {
+            let want = cur_val(&now, live, t);
+            let got_ro = e.get_other(h).map(|c| c.0);
+            assert!(got_ro == want, "C13: get_other differs from the storage's own lookup");
+            match e.get_other_mut(h) {
+                Some(c) => {
+                    assert!(live, "C03: get_other_mut through a dead handle returned a component");
+                    assert!(Some(c.0) == want, "C13: get_other_mut differs from the storage's own lookup");
+                    c.0 = y;
+                    now[t] = Some(y);
+                }
+                None => assert!(want.is_none(), "C13: get_other_mut missed a live entity's component"),
+            }
+            visited += 1;
+        }
+        forget(it);
+    }
+    let mut members = 0usize;
+    for i in 0..NI {
+        if am[i].is_some() {
+            members += 1;
+            let v = unsafe { specs::storage::UnprotectedStorage::get(sa.unprotected_storage(), ids[i]) }.0;
+            assert!(Some(v) == now[i], "C13: a write through get_other_mut changed another entity (or was lost)");
+        }
+        assert!(sa.mask().contains(ids[i]) == am[i].is_some(), "C13: restricted join changed membership");
+    }
+    assert!(visited == members, "C13: lending join over a restricted storage visits a different set");
+    witness!(!live && am[t].is_some() && st[t].current().is_some() && visited >= 1, "restrict: stale handle on an index whose newer occupant is visited");
+    forget(sa);
+    forget(ma);
+    forget(env);
+}
